@@ -213,3 +213,57 @@ def dispatcher_history(a0: bool, a1: bool, b0: bool, b1: bool, c0: bool, c1: boo
             ok = ok and present == (owner == k)
     ok = ok and len(log.warnings) - n1 == nrej
     return done(ok)
+
+
+# ---------------------------------------------------------------------------------------------
+# long sections: a run of lines of one kind, then a line several kinds would accept (round 4)
+# ---------------------------------------------------------------------------------------------
+RUNMAX = H.part("VF_RUNMAX", 8)
+RUNK = H.part("VF_RUNK", -1)          # partition: 3*k1 + k2 fixed per process (-1: symbolic)
+
+
+def dispatcher_runs(r1: int, k1: int, g: bool, r2: int, k2: int, x0: bool, x1: bool, x2: bool) -> bool:
+    """
+    pre: 0 <= r1 <= RUNMAX and 0 <= r2 <= 2 and 0 <= k1 <= 2 and 0 <= k2 <= 2
+    pre: RUNK < 0 or 3 * k1 + k2 == RUNK
+    post: _
+    """
+    # r1 lines only kind k1 accepts, optionally an unparsable line, r2 lines only kind k2 accepts, then
+    # one line accepted by the kinds {x0, x1, x2} (overlaps allowed): whatever came before, every line
+    # goes to the FIRST kind of the caller's order that accepts it, once, in file order
+    n = r1 + (1 if g else 0) + r2 + 1
+    all_lines = fresh_lines(RUNMAX + 5)[:]
+    lines = all_lines[:n]
+    acc = [[False] * len(all_lines) for _ in range(3)]
+    pos = 0
+    for _ in range(r1):
+        acc[k1][pos] = True
+        pos += 1
+    if g:
+        pos += 1
+    for _ in range(r2):
+        acc[k2][pos] = True
+        pos += 1
+    acc[0][pos], acc[1][pos], acc[2][pos] = x0, x1, x2
+    kinds = [_mk_kind(k, acc[k], all_lines) for k in range(3)]
+    log = H.CountingLogger()
+    with H.patched((T, "logger", log)):
+        m = T.parse_data_from_chart_lines(tuple(kinds), iter(lines))
+    want = [[], [], []]
+    nrej = 0
+    for i in range(n):
+        for k in range(3):
+            if acc[k][i]:
+                want[k].append(i)
+                break
+        else:
+            nrej += 1
+    ok = len(log.warnings) == nrej
+    for k in range(3):
+        got = m[kinds[k]]
+        ok = ok and len(got) == len(want[k])
+        if not ok:
+            return done(False)
+        for j, i in enumerate(want[k]):
+            ok = ok and got[j].kind == k and got[j].line is lines[i]
+    return done(ok)
